@@ -17,7 +17,7 @@ from ..common import Skip, brief
 ID = "C14"
 CASES = {"quick": 3200, "thorough": 36000}
 FLOOR = {"quick": 1600, "thorough": 20000}
-FLOOR_COUNTERS = {"quick": {"fits_judged": 3500, "nested_pairs": 1200, "new_data_calls": 3000, "y1d_cases": 300, "default_n_components_fits": 100, "estimators_with_a_past": 500, "arpack_fits": 200}, "thorough": {"fits_judged": 45000, "nested_pairs": 15000, "new_data_calls": 40000, "y1d_cases": 4000, "default_n_components_fits": 1200, "estimators_with_a_past": 6000, "arpack_fits": 2500}}
+FLOOR_COUNTERS = {"quick": {"fits_through_fit_transform": 300, "configured_not_by_constructor": 300, "non_default_containers": 300, "fits_judged": 3500, "nested_pairs": 1200, "new_data_calls": 3000, "y1d_cases": 300, "default_n_components_fits": 100, "estimators_with_a_past": 500, "arpack_fits": 200}, "thorough": {"fits_through_fit_transform": 4000, "configured_not_by_constructor": 4000, "non_default_containers": 4000, "fits_judged": 45000, "nested_pairs": 15000, "new_data_calls": 40000, "y1d_cases": 4000, "default_n_components_fits": 1200, "estimators_with_a_past": 6000, "arpack_fits": 2500}}
 RULE = (
     "case = centred X, Y (1-D and 2-D), mixing in (0,1], space in {feature, sample}, regressor in the admissible set, "
     "k in [1, rank]; the fit for k and, when k+1 <= rank, for k+1 (full solver) are judged: projector algebra on training "
@@ -38,6 +38,7 @@ def gen(rng, tier, index):
     k = int(rng.integers(1, max(1, rank) + 1))
     nz = int(rng.integers(1, 9))
     return {
+        "routes": pc.routes(rng),
         "X": X,
         "Y": Y,
         "kind": kind,
@@ -61,6 +62,7 @@ def _losses(est, X, Y):
 
 
 def run(case, j):
+    pc.use_routes(j, case)
     X, Y, reg, a, k, space, Z = case["X"], case["Y"], case["reg"], case["mixing"], case["k"], case["space"], case["Z"]
     n, m = X.shape
     oned = np.ndim(Y) == 1
